@@ -22,13 +22,63 @@ def run_gmul(ctx, a):
         ctx.eq('C02/gmul', ctx.attempt(gmul, a, b), ('ok', R.gf_mul(a, b)))
 
 
+def spelling_pairs():
+    """pairs of different columns whose bytes read the same when written one after the other without padding, in hex
+    (1,23 | 12,3) or in decimal, at each of the three adjacent positions"""
+    out = []
+    for (a1, a2, b1, b2) in ((0x1, 0x23, 0x12, 0x3), (1, 23, 12, 3), (0xa, 0xbc, 0xab, 0xc)):
+        for p in range(3):
+            A = [0x45, 0x67, 0x89, 0xcd]
+            B = list(A)
+            A[p], A[p + 1] = a1, a2
+            B[p], B[p + 1] = b1, b2
+            out.append((A, B))
+    return out
+
+
+def spelling_states():
+    sts = []
+    for A, B in spelling_pairs():
+        for i in range(4):
+            for j in range(4):
+                if i != j:
+                    st = [0x10 * c + r + 0x31 for c in range(4) for r in range(4)]
+                    st[4 * i:4 * i + 4] = A
+                    st[4 * j:4 * j + 4] = B
+                    sts.append(st)
+    return sts
+
+
 def pts_tables(tier):
-    return [('aes-sbox',), ('des-sbox',), ('des-perms',), ('des-subkey',)] + [('serpent-sbox', b, h) for b in range(8) for h in range(4)]
+    return [('aes-mixcolumns-spelling', h) for h in range(4)] + [('aes-sbox',), ('des-sbox',), ('des-perms',), ('des-subkey',)] + [('serpent-sbox', b, h) for b in range(8) for h in range(4)]
 
 
 def run_tables(ctx, pt):
     what = pt[0]
     from crysp.bits import Bits
+    if what == 'aes-mixcolumns-spelling':
+        from crysp.aes import AES
+        from crysp.poly import Poly
+        sts = spelling_states()
+        for st in sts[pt[1]::4]:
+            for nk in (16, 24, 32):
+                key = ramp(nk, 7, 3)
+                A = AES(key)
+                x = Poly(list(st), 8)
+                A.MixColumns(x)
+                ctx.eq('C02/aes/MixColumns/columns-with-the-same-unpadded-spelling', list(x.ival), R.mix_columns(st))
+                x = Poly(list(st), 8)
+                A.InvMixColumns(x)
+                ctx.eq('C02/aes/InvMixColumns/columns-with-the-same-unpadded-spelling', list(x.ival), R.mix_columns(st, inv=True))
+                if nk != 16 and pt[1] != 0:
+                    continue
+                # whole cipher: the block for which this state enters the first MixColumns / the first InvMixColumns
+                rk, nr = R.aes_expand(key)
+                P = bytes(a ^ b for a, b in zip([R.SBOX_INV[v] for v in R.inv_shift_rows(st)], rk[0]))
+                ctx.eq('C02/aes%d/enc/columns-with-the-same-unpadded-spelling' % (8 * nk), ctx.attempt(AES(key).enc, P), ('ok', R.aes_enc(key, P)))
+                C = bytes(a ^ b for a, b in zip(R.shift_rows([R.SBOX[v ^ k] for v, k in zip(st, rk[nr - 1])]), rk[nr]))
+                ctx.eq('C02/aes%d/dec/columns-with-the-same-unpadded-spelling' % (8 * nk), ctx.attempt(AES(key).dec, C), ('ok', R.aes_dec(key, C)))
+        return
     if what == 'aes-sbox':
         from crysp.aes import AES
         ctx.eq('C02/aes/sbox-table', list(AES.sboxtable.ival), R.SBOX)
@@ -68,6 +118,23 @@ def run_tables(ctx, pt):
                     for name, f, tabs in (('_S', S._S, RS.SB), ('_Sinv', S._Sinv, RS.SBI)):
                         o = RS.sbox(tabs[box], w)
                         ctx.eq('C02/serpent/sbox%s' % name, ctx.call(f, box, x).ival, sum(o[t] << (32 * t) for t in range(4)))
+
+
+def pts_tfstates(tier):
+    return [(c, s) for c in ('tf256', 'tf512', 'tf1024') for s in range(0, (20 if c == 'tf1024' else 18) + 1)]
+
+
+def run_tfstates(ctx, pt):
+    c, s = pt
+    try:
+        key, tw, blocks = F.tf_crafted_blocks(c, s)
+    except AssertionError as e:
+        raise InternalError(str(e))
+    o = F.make(c, key, tw)
+    for P in blocks:
+        C = RT.tf_enc(key, tw, P)
+        ctx.eq('C02/%s/enc/internal-state-classes' % c, ctx.attempt(o.enc, P), ('ok', C))
+        ctx.eq('C02/%s/dec/internal-state-classes' % c, ctx.attempt(o.dec, C), ('ok', P))
 
 
 # ---- P: known-answer families -------------------------------------------------------
@@ -307,6 +374,8 @@ def subchecks():
         Sub('gmul', pts_gmul, run_gmul, engine='D', bound='all 65536 byte pairs vs carry-less multiplication mod 0x11B'),
         Sub('tables', pts_tables, run_tables, engine='D', chunk=1,
             bound='AES S-box and inverse (256 entries, vs algebraic construction); DES S(n,x) all 8x64 cells; IP/IPinv/PC1/PC2/E/P on every single-bit input; subkey(k,r) r=0..15 on the 56 single-bit k; Serpent _S/_Sinv 8 boxes x 32 positions x 16 values'),
+        Sub('threefish-internal-states', pts_tfstates, run_tfstates, engine='P',
+            bound='Threefish-256/512/1024 x every subkey injection s = 0..18 (20): blocks computed with the reference so that the state right after injection s has a last word in {0..min(s,3), s-1, s, 2^64-s, 2^64-1, 2^63} or a zero / all-ones first or tweak-carrying word; enc and dec vs reference'),
         Sub('known-answer', pts_kat, run_kat, engine='P', exhaustive=False,
             bound='per cipher: key family (single-bit keys, 254 repeated-byte keys, patterns, DES weak/semi-weak/parity variants, Threefish keys whose parity word is 0,1,3,2^32-1,2^32,2^63-1,2^63,2^64-2,2^64-1, AES/Serpent keys with equal / complementary words) x 3 blocks; 3 keys x block family; Threefish tweak family; enc, dec of the ciphertext and dec of the plaintext block vs reference (quick: every 4th family member)'),
         Sub('key-forms', pts_forms, run_forms, engine='P', bound='Serpent every key length 1..32 bytes x 5 patterns; TDEA every keying form x key relation'),
